@@ -396,6 +396,14 @@ def check_refusals(col, repo: Repo, m):
                 if isinstance(r, ast.Raise):
                     if any(needle in src(t) for t, _ in guards(f.node, r, pm)):
                         ok = True
+        if not ok and how in ("else-raise", "last-raise", "last-else-raise"):
+            # the dispatch may have been moved into a helper whose fall-through raises
+            for c in walk_no_nested(f.node):
+                if isinstance(c, ast.Call):
+                    for g in repo.resolve_call(f, c):
+                        gb = [s_ for s_ in g.node.body if not (isinstance(s_, ast.Expr) and isinstance(s_.value, ast.Constant))]
+                        if g.module is f.module and gb and isinstance(gb[-1], ast.Raise) and g.name not in ("get_rep",):
+                            ok = True
         col.add("C09.R5", f.short, f"refusal:{what}", ok, f"{what}: the function must still end this case in a raise ({how})", f.loc)
 
 
